@@ -35,34 +35,172 @@ def errAt (dp : Nat → DPV) (label : List Nat) (i c : Nat) : Res Unit :=
 
 theorem allowsAt_eq_errAt (dp : Nat → DPV) (label : List Nat) (i c : Nat) :
     allowsAt dp label i c = errAt dp label i c := by
-  sorry
+  unfold allowsAt errAt allowedByContextRule
+  generalize dp c = v
+  cases v <;> rfl
+
+theorem errAt_ok_iff_aux (dp : Nat → DPV) (label : List Nat) (i c : Nat) :
+    errAt dp label i c = .ok () ↔
+      (dp c = .pValid ∨ dp c = .specClassPval ∨
+        ((dp c = .contextJ ∨ dp c = .contextO) ∧
+          ∃ r, getContextRule c = some r ∧ applyRule r label i = .ok true)) := by
+  unfold errAt
+  cases hv : dp c <;> simp
+  all_goals
+    cases hr : getContextRule c with
+    | none => simp
+    | some r =>
+      cases ha : applyRule r label i with
+      | ok b => cases b <;> simp [ha]
+      | notApplicable => simp [ha]
+      | undefined => simp [ha]
+      | panic => simp [ha]
 
 theorem errAt_ok_iff (dp : Nat → DPV) (label : List Nat) (i : Nat) (h : i < label.length) :
     errAt dp label i label[i] = .ok () ↔ OkAt dp label i := by
-  sorry
+  rw [errAt_ok_iff_aux]
+  unfold OkAt
+  constructor
+  · intro H; exact ⟨h, H⟩
+  · rintro ⟨_, H⟩; exact H
+
+/-- the loop succeeds iff the body succeeds at every remaining position -/
+theorem allowsLoop_ok_iff (dp : Nat → DPV) (label : List Nat) (rest : List Nat) (offset : Nat) :
+    allowsLoop dp label rest offset = .ok () ↔
+      ∀ j, (hj : j < rest.length) → errAt dp label (offset + j) rest[j] = .ok () := by
+  induction rest generalizing offset with
+  | nil => simp [allowsLoop]
+  | cons c r ih =>
+    rw [allowsLoop, allowsAt_eq_errAt]
+    constructor
+    · intro H j hj
+      cases hc : errAt dp label offset c with
+      | ok u =>
+        rw [hc] at H
+        cases j with
+        | zero => simpa using hc
+        | succ j =>
+          have := (ih (offset + 1)).1 H j (by simpa using hj)
+          simpa [Nat.add_assoc, Nat.add_comm 1 j] using this
+      | err e => rw [hc] at H; simp at H
+      | panic => rw [hc] at H; simp at H
+    · intro H
+      have h0 := H 0 (by simp)
+      simp at h0
+      rw [h0]
+      refine (ih (offset + 1)).2 ?_
+      intro j hj
+      have := H (j + 1) (by simpa using hj)
+      simpa [Nat.add_assoc, Nat.add_comm 1 j] using this
+
+/-- the loop returns the body's result at the first failing position -/
+theorem allowsLoop_first (dp : Nat → DPV) (label : List Nat) (rest : List Nat) (offset k : Nat)
+    (hk : k < rest.length) (hbad : errAt dp label (offset + k) rest[k] ≠ .ok ())
+    (hmin : ∀ j, (hj : j < k) → errAt dp label (offset + j) (rest[j]'(Nat.lt_trans hj hk)) = .ok ()) :
+    allowsLoop dp label rest offset = errAt dp label (offset + k) rest[k] := by
+  induction rest generalizing offset k with
+  | nil => simp at hk
+  | cons c r ih =>
+    rw [allowsLoop, allowsAt_eq_errAt]
+    cases k with
+    | zero =>
+      simp at hbad ⊢
+      cases hc : errAt dp label offset c with
+      | ok u => exact absurd hc hbad
+      | err e => rfl
+      | panic => rfl
+    | succ k =>
+      have h0 := hmin 0 (by omega)
+      simp at h0
+      rw [h0]
+      have hk' : k < r.length := by simpa using hk
+      have := ih (offset + 1) k hk'
+        (by simpa [Nat.add_assoc, Nat.add_comm 1 k] using hbad)
+        (by
+          intro j hj
+          have := hmin (j + 1) (by omega)
+          simpa [Nat.add_assoc, Nat.add_comm 1 j] using this)
+      simpa [Nat.add_assoc, Nat.add_comm 1 k] using this
+
+/-- every error of the loop is the body's result at the first failing position -/
+theorem allowsLoop_err (dp : Nat → DPV) (label : List Nat) (rest : List Nat) (offset : Nat) (e : Err)
+    (h : allowsLoop dp label rest offset = .err e) :
+    ∃ k, ∃ hk : k < rest.length,
+      (∀ j, (hj : j < k) → errAt dp label (offset + j) (rest[j]'(Nat.lt_trans hj hk)) = .ok ()) ∧
+      errAt dp label (offset + k) rest[k] = .err e := by
+  induction rest generalizing offset with
+  | nil => simp [allowsLoop] at h
+  | cons c r ih =>
+    rw [allowsLoop, allowsAt_eq_errAt] at h
+    cases hc : errAt dp label offset c with
+    | ok u =>
+      rw [hc] at h
+      obtain ⟨k, hk, hmin, hek⟩ := ih (offset + 1) h
+      refine ⟨k + 1, by simpa using hk, ?_, ?_⟩
+      · intro j hj
+        cases j with
+        | zero => simpa using hc
+        | succ j =>
+          have := hmin j (by omega)
+          simpa [Nat.add_assoc, Nat.add_comm 1 j] using this
+      · simpa [Nat.add_assoc, Nat.add_comm 1 k] using hek
+    | err e' =>
+      rw [hc] at h
+      simp at h
+      subst h
+      exact ⟨0, by simp, by intro j hj; omega, by simpa using hc⟩
+    | panic => rw [hc] at h; simp at h
 
 /-- accepted exactly when every position is acceptable -/
 theorem allows_ok_iff (dp : Nat → DPV) (label : List Nat) :
     allows dp label = .ok () ↔ ∀ i, i < label.length → OkAt dp label i := by
-  sorry
+  unfold allows
+  rw [allowsLoop_ok_iff]
+  constructor
+  · intro H i hi
+    have := H i hi
+    rw [Nat.zero_add] at this
+    exact (errAt_ok_iff dp label i hi).1 this
+  · intro H j hj
+    rw [Nat.zero_add]
+    exact (errAt_ok_iff dp label j hj).2 (H j hj)
 
 /-- rejection is caused by, and reported for, the FIRST offending code point:
 its code point, its zero-based position counted in code points, its derived property -/
 theorem allows_first_err (dp : Nat → DPV) (label : List Nat) (k : Nat) (hk : k < label.length)
     (hbad : ¬ OkAt dp label k) (hmin : ∀ i, i < k → OkAt dp label i) :
     allows dp label = errAt dp label k label[k] := by
-  sorry
+  unfold allows
+  have := allowsLoop_first dp label label 0 k hk
+    (by rw [Nat.zero_add]; exact fun H => hbad ((errAt_ok_iff dp label k hk).1 H))
+    (by
+      intro j hj
+      rw [Nat.zero_add]
+      exact (errAt_ok_iff dp label j (Nat.lt_trans hj hk)).2 (hmin j hj))
+  rw [Nat.zero_add] at this
+  exact this
 
 /-- the shape of every error: BadCodepoint carries (cp, position, property) of an offending position;
 Undefined only arises from a contextual code point whose rule answered Undefined -/
 theorem allows_err_shape (dp : Nat → DPV) (label : List Nat) (e : Err) (h : allows dp label = .err e) :
     ∃ k, ∃ hk : k < label.length, (∀ i, i < k → OkAt dp label i) ∧ ¬ OkAt dp label k ∧
       errAt dp label k label[k] = .err e := by
-  sorry
+  unfold allows at h
+  obtain ⟨k, hk, hmin, hek⟩ := allowsLoop_err dp label label 0 e h
+  rw [Nat.zero_add] at hek
+  refine ⟨k, hk, ?_, ?_, hek⟩
+  · intro i hi
+    have := hmin i hi
+    rw [Nat.zero_add] at this
+    exact (errAt_ok_iff dp label i (Nat.lt_trans hi hk)).1 this
+  · intro H
+    have := (errAt_ok_iff dp label k hk).2 H
+    rw [hek] at this
+    cases this
 
 /-- non-vacuity: a label whose third code point is the first offender (a 3-byte character before it) -/
 example : allows (fun c => if c = 0x41 then .disallowed else .pValid) [0x65E5, 0x61, 0x41, 0x41]
     = .err (.bad 0x41 2 .disallowed) := by
-  sorry
+  decide
 
 end Precis.C02
